@@ -86,6 +86,72 @@ void *thread_main(void *a_) {
     random_ops(a->seed ^ 0x77);
     return nullptr;
 }
+// ------------------------------------------------------------------ second phase: threads share READ-ONLY inputs
+// "Distinct buffers" are the buffers a call writes; a precomputed key / state, a public key or a signed message passed as a const input may be
+// shared by any number of threads.  The objects are prepared by the main thread after the first phase; in the internal-RNG family the main
+// thread also calls randombytes_close() first, so that every new thread's first draw has to bring the generator up again concurrently.
+struct Shared {
+    bool gcm = false; crypto_aead_aes256gcm_state *gst = nullptr;
+    unsigned char boxk[32], xboxk[32], spk[32], ssk[64], sig[64], smsg[200], key[32], hkey[32];
+    crypto_generichash_state ghinit;
+};
+Shared g_sh;
+struct T2Arg { int id; uint64_t seed; uint64_t digest; unsigned char rnd[32]; };
+uint64_t shared_work(uint64_t seed) {
+    Rng r(seed);
+    uint64_t d = 0x5ad;
+    unsigned char m[700], c[700 + 32], mac[32], npub[32], out[64]; unsigned long long l = 0;
+    for (int it = 0; it < 3; it++) {
+        size_t len = 64 + (size_t) r.below(600); r.fill(m, sizeof m); r.fill(npub, sizeof npub);
+        if (g_sh.gcm) {
+            crypto_aead_aes256gcm_encrypt_afternm(c, &l, m, len, npub + 12, (size_t) r.below(20), nullptr, npub, g_sh.gst); d = mix64(d, hash_bytes(c, (size_t) l));
+            crypto_aead_aes256gcm_encrypt_detached_afternm(c, mac, &l, m, len, m, (size_t) (64 + r.below(300)), nullptr, npub, g_sh.gst); d = mix64(d, hash_bytes(mac, 16));
+        }
+        crypto_box_easy_afternm(c, m, len, npub, g_sh.boxk); d = mix64(d, hash_bytes(c, len + 16));
+        crypto_box_curve25519xchacha20poly1305_easy_afternm(c, m, len, npub, g_sh.xboxk); d = mix64(d, hash_bytes(c, len + 16));
+        d = mix64(d, (uint64_t) (crypto_sign_verify_detached(g_sh.sig, g_sh.smsg, sizeof g_sh.smsg, g_sh.spk) + 3));
+        // signing with a shared secret key (deterministic)
+        { unsigned char s2[64]; crypto_sign_detached(s2, nullptr, m, len, g_sh.ssk); d = mix64(d, hash_bytes(s2, 64)); }
+        crypto_generichash(out, 48, m, len, g_sh.hkey, 32); d = mix64(d, hash_bytes(out, 48));
+        { crypto_generichash_state st = g_sh.ghinit; crypto_generichash_update(&st, m, len); crypto_generichash_final(&st, out, 40); d = mix64(d, hash_bytes(out, 40)); }     // a keyed state prepared once, copied by every thread
+        crypto_secretbox_easy(c, m, len, npub, g_sh.key); d = mix64(d, hash_bytes(c, len + 16));
+        crypto_auth(out, m, len, g_sh.key); d = mix64(d, hash_bytes(out, 32));
+    }
+    return d;
+}
+void *thread2_main(void *a_) {
+    T2Arg *a = (T2Arg *) a_;
+    pthread_barrier_wait(&g_bar);
+    randombytes_buf(a->rnd, sizeof a->rnd);
+    a->digest = shared_work(a->seed);
+    return nullptr;
+}
+int phase2(const Case &c, int &dup_random) {
+    Rng r(mix64(c.seed, 0x5a4ed));
+    unsigned char seed[32], pk[32], sk[32], pk2[32], sk2[32];
+    r.fill(seed, 32); crypto_box_seed_keypair(pk, sk, seed); r.fill(seed, 32); crypto_box_seed_keypair(pk2, sk2, seed);
+    (void) !crypto_box_beforenm(g_sh.boxk, pk2, sk); (void) !crypto_box_curve25519xchacha20poly1305_beforenm(g_sh.xboxk, pk2, sk);
+    r.fill(seed, 32); crypto_sign_seed_keypair(g_sh.spk, g_sh.ssk, seed); r.fill(g_sh.smsg, sizeof g_sh.smsg); crypto_sign_detached(g_sh.sig, nullptr, g_sh.smsg, sizeof g_sh.smsg, g_sh.ssk);
+    r.fill(g_sh.key, 32); r.fill(g_sh.hkey, 32);
+    crypto_generichash_init(&g_sh.ghinit, g_sh.hkey, 32, 40);
+    g_sh.gcm = crypto_aead_aes256gcm_is_available() != 0;
+    if (g_sh.gcm) { g_sh.gst = (crypto_aead_aes256gcm_state *) aligned_alloc(64, (sizeof(crypto_aead_aes256gcm_state) + 63) / 64 * 64); crypto_aead_aes256gcm_beforenm(g_sh.gst, g_sh.key); }
+    if (c.family == 1) (void) randombytes_close();
+    pthread_barrier_destroy(&g_bar); pthread_barrier_init(&g_bar, nullptr, (unsigned) c.nthreads);
+    std::vector<pthread_t> th((size_t) c.nthreads); std::vector<T2Arg> args((size_t) c.nthreads);
+    for (int i = 0; i < c.nthreads; i++) { args[(size_t) i] = T2Arg{ i, mix64(c.seed, 0x2000 + (uint64_t) i), 0, { 0 } }; pthread_create(&th[(size_t) i], nullptr, thread2_main, &args[(size_t) i]); }
+    for (int i = 0; i < c.nthreads; i++) pthread_join(th[(size_t) i], nullptr);
+    int bad = 0;
+    for (int i = 0; i < c.nthreads; i++) if (shared_work(args[(size_t) i].seed) != args[(size_t) i].digest) bad++;
+    static const unsigned char ZK[32] = { 0x76, 0xb8, 0xe0, 0xad, 0xa0, 0xf1, 0x3d, 0x90, 0x40, 0x5d, 0x6a, 0xe5, 0x53, 0x86, 0xbd, 0x28, 0xbd, 0xd2, 0x19, 0xb8, 0xa0, 0x8d, 0xed, 0x1a, 0xa8, 0x36, 0xef, 0xcc, 0x8b, 0x77, 0x0d, 0xc7 };
+    for (int i = 0; i < c.nthreads; i++) {
+        if (memcmp(args[(size_t) i].rnd, ZK, 32) == 0) dup_random++;
+        for (int j = i + 1; j < c.nthreads; j++) if (memcmp(args[(size_t) i].rnd, args[(size_t) j].rnd, 32) == 0) dup_random++;
+    }
+    if (g_sh.gst) free(g_sh.gst);
+    return bad;
+}
+
 int trial_main(const Case &c) {
     g_focus = c.focus;
     if (c.family == 1) randombytes_set_implementation(&randombytes_internal_implementation);
@@ -103,6 +169,7 @@ int trial_main(const Case &c) {
         if (memcmp(args[(size_t) i].first_random, ZK, 32) == 0) dup_random++;
         for (int j = i + 1; j < c.nthreads; j++) if (memcmp(args[(size_t) i].first_random, args[(size_t) j].first_random, 32) == 0) dup_random++;
     }
+    if (c.focus < 0) bad_digest += phase2(c, dup_random);
     printf("TRIAL zero=%d one=%d neg=%d overlap=%d bad_digest=%d again=%d dup_random=%d\n", g_zero.load(), g_one.load(), g_neg.load(), g_overlap.load(), bad_digest, sodium_init(), dup_random);
     fflush(stdout);
     return 0;
